@@ -73,9 +73,13 @@ def tasks(tier):
             ts.append(("SolidBody mixed[%s,%s]" % (kind, mat), "run_mixed", dict(kind=kind, mat=mat)))
     for kind in ("Field2", "Field3", "PlaneStrain", "Axisymmetric"):
         ts.append(("SolidBodyNearlyIncompressible[%s]" % kind, "run_nearly", dict(kind=kind)))
+    for bk in ("SolidBody", "SolidBodyNearlyIncompressible"):
+        ts.append(("state variables[%s]" % bk, "run_state_consistency", dict(body_kind=bk)))
     ts.append(("loads", "run_loads", {}))
     ts.append(("multipoint", "run_multipoint", {}))
     ts.append(("pressure+cauchy", "run_surface", {}))
+    for kind in ("PlaneStrain", "Axisymmetric"):
+        ts.append(("pressure+cauchy[%s]" % kind, "run_surface_2d", dict(kind=kind)))
     ts.append(("solver multiplier", "run_multiplier", {}))
     ts.append(("form item", "run_formitem", {}))
     return ts
@@ -204,6 +208,65 @@ def run_nearly(col, kind):
     finish_info(col, it)
 
 
+class StatefulOpaque(OpaqueHyper):
+    """opaque material with stored state variables: every gradient call returns a *new* trial state, different from the one it was given;
+    records the state it is handed in each call"""
+
+    def __init__(self, name="Wz", dim=3):
+        OpaqueHyper.__init__(self, name, dim, with_state=True)
+        self.states_seen = []
+        self.ntrial = 0
+
+    def gradient(self, x, out=None):
+        res = OpaqueHyper.gradient(self, x, out=out)
+        self.states_seen.append(("gradient", npmodel.to_obj(np.asarray(x[-1])).copy()))
+        self.ntrial += 1
+        trial = npmodel.to_obj(np.asarray(x[-1])).copy()
+        for t in np.ndindex(*trial.shape):
+            trial[t] = sym("ztrial%d" % self.ntrial)
+        return [res[0], trial]
+
+    def hessian(self, x, out=None):
+        self.states_seen.append(("hessian", npmodel.to_obj(np.asarray(x[-1])).copy()))
+        return OpaqueHyper.hessian(self, x, out=out)
+
+
+def run_state_consistency(col, body_kind):
+    """vector and matrix differentiate one function only if both evaluate the material at the *same* stored state variables: the
+    committed ones (results.statevars), never the trial state a previous evaluation returned"""
+    it = new_interp()
+    fc, unknowns, (ra, rb), d, tdim = setup_fields(it, "Field3", nq=1)
+    umat = StatefulOpaque("Wz", dim=3)
+    if body_kind == "SolidBody":
+        cls = it.get("felupe.mechanics._solidbody:SolidBody")
+        body = it.call(cls, [], dict(umat=umat, field=fc))
+    else:
+        cls = it.get("felupe.mechanics._solidbody_incompressible:SolidBodyNearlyIncompressible")
+        body = it.call(cls, [], dict(umat=umat, field=fc, bulk=sym("bulk", True)))
+    res = it.getattr(body, "results")
+    committed = npmodel.to_obj(np.asarray(it.getattr(res, "statevars")))
+    for t in np.ndindex(*committed.shape):
+        committed[t] = sym("zcommitted")
+    it.setattr(res, "statevars", committed.copy())
+    asm = it.getattr(body, "assemble")
+    umat.states_seen = []
+    for rep in range(2):
+        it.call(it.getattr(asm, "vector"), [fc], {})
+        it.call(it.getattr(asm, "matrix"), [fc], {})
+    bad = []
+    for kind_, st in umat.states_seen:
+        if st.shape != committed.shape or any(not is_zero(P(a) - P(b)) for a, b in zip(st.reshape(-1), committed.reshape(-1))):
+            bad.append((kind_, str(st.reshape(-1)[0]) if st.size else "empty"))
+    kinds = {k for k, _ in umat.states_seen}
+    col.add("C01.O1z", "%s state variables handed to the material" % body_kind,
+            "in vector -> matrix -> vector -> matrix every umat.gradient and umat.hessian call receives the committed state variables (not a trial state of an earlier evaluation)",
+            not bad and kinds == {"gradient", "hessian"}, "%s: calls with another state: %s" % (method_where(cls, "_matrix"), bad[:4]))
+    now = npmodel.to_obj(np.asarray(it.getattr(res, "statevars")))
+    col.add("C01.O1z", "%s committed state untouched by assembly" % body_kind, "assembling vector and matrix does not change results.statevars",
+            now.shape == committed.shape and all(is_zero(P(a) - P(b)) for a, b in zip(now.reshape(-1), committed.reshape(-1))))
+    finish_info(col, it)
+
+
 def run_loads(col):
     from . import c01_items
     c01_items.run_loads(col)
@@ -217,6 +280,11 @@ def run_multipoint(col):
 def run_surface(col):
     from . import c01_items
     c01_items.run_surface(col)
+
+
+def run_surface_2d(col, kind):
+    from . import c01_items
+    c01_items.run_surface_2d(col, kind)
 
 
 def run_multiplier(col):
